@@ -1,0 +1,48 @@
+//go:build verif
+
+// Contracts for package bifrost_rpc_access, checked by /verif (bfvc). Comment-only.
+package bifrost_rpc_access
+
+// ---- C36: a request encoded into a component ID decodes back to the same request ----
+//@ func (*LookupRpcServiceRequest).MarshalComponentID
+//@   ensures r != nil ==> ret1 == nil && ret0 == b58enc(lrPB(r.ServiceId, r.ServerId))
+//@ func (*LookupRpcServiceRequest).UnmarshalComponentID
+//@   modifies r
+//@   ensures ret == nil ==> b58ok(componentID) && lrOK(b58dec(componentID)) && r.ServiceId == lrService(b58dec(componentID)) && r.ServerId == lrServer(b58dec(componentID))
+//@ lemma componentid-roundtrip: forall a string, b string :: b58ok(b58enc(lrPB(a, b))) && lrOK(b58dec(b58enc(lrPB(a, b)))) && lrService(b58dec(b58enc(lrPB(a, b)))) == a && lrServer(b58dec(b58enc(lrPB(a, b)))) == b
+//@ func NewLookupRpcServiceRequest
+//@   ensures ret != nil && ret.ServiceId == serviceID && ret.ServerId == serverID
+//@   fresh ret
+
+// ---- C36: the lookup stream reports availability faithfully ----
+// bcast (a local variable of LookupRpcService) protects the state shared with the callbacks.
+//@ guards local (*AccessRpcServiceServer).LookupRpcService.bcast: sendQueue, disposed, resErr, resIdle, vals
+//@ lockinv local (*AccessRpcServiceServer).LookupRpcService.bcast: vals != nil
+
+// Value added: "exists" is queued exactly when the first provider appears (the set of provider IDs
+// was empty); otherwise nothing is queued. The provider's ID is in the set afterwards.
+//@ func (*AccessRpcServiceServer).LookupRpcService$2
+//@   noframe
+//@   nosweep nil-deref
+//@   cs local.bcast ensures !old(av.GetValueID() in vals) ==> ((len(sendQueue) == old(len(sendQueue)) + 1) <==> old(len(vals)) == 0) && (len(sendQueue) == old(len(sendQueue)) || len(sendQueue) == old(len(sendQueue)) + 1)
+//@   cs local.bcast ensures len(sendQueue) == old(len(sendQueue)) + 1 ==> sendQueue[len(sendQueue)-1] != nil && sendQueue[len(sendQueue)-1].Exists && !sendQueue[len(sendQueue)-1].Removed
+//@   cs local.bcast ensures (av.GetValueID() in vals) && disposed == old(disposed) && resIdle == old(resIdle)
+
+// Value removed: "removed" is queued exactly when the last provider disappears; removing an unknown
+// ID changes nothing.
+//@ func (*AccessRpcServiceServer).LookupRpcService$3
+//@   noframe
+//@   nosweep nil-deref
+//@   cs local.bcast ensures (len(sendQueue) == old(len(sendQueue)) + 1) <==> (old(av.GetValueID() in vals) && old(len(vals)) == 1)
+//@   cs local.bcast ensures len(sendQueue) == old(len(sendQueue)) || len(sendQueue) == old(len(sendQueue)) + 1
+//@   cs local.bcast ensures len(sendQueue) == old(len(sendQueue)) + 1 ==> sendQueue[len(sendQueue)-1] != nil && sendQueue[len(sendQueue)-1].Removed && !sendQueue[len(sendQueue)-1].Exists
+//@   cs local.bcast ensures !(av.GetValueID() in vals) && disposed == old(disposed) && resIdle == old(resIdle)
+
+// Idle callback: an idle report is queued exactly when the idle state changes, carrying the new state.
+//@ func (*AccessRpcServiceServer).LookupRpcService$5
+//@   noframe
+//@   nosweep nil-deref
+//@   cs local.bcast ensures (len(sendQueue) == old(len(sendQueue)) + 1) <==> (isIdle != old(resIdle))
+//@   cs local.bcast ensures len(sendQueue) == old(len(sendQueue)) || len(sendQueue) == old(len(sendQueue)) + 1
+//@   cs local.bcast ensures len(sendQueue) == old(len(sendQueue)) + 1 ==> sendQueue[len(sendQueue)-1] != nil && sendQueue[len(sendQueue)-1].Idle == isIdle && !sendQueue[len(sendQueue)-1].Exists && !sendQueue[len(sendQueue)-1].Removed
+//@   cs local.bcast ensures resIdle == isIdle && disposed == old(disposed)
